@@ -56,8 +56,8 @@ def c06b(ctx, tu):
     at least one was listed."""
     def classify(fn, ev, env):
         k = ev["e"]
-        if k == "decl" and lib.tree_name(ev.get("init")) == "trompeloeil::list::begin":
-            return ("sym", "begin")
+        if k == "decl" and any(lib.tree_name(c) == "trompeloeil::list::begin" for c in lib.tree_calls(ev.get("init"))):
+            return ("sym", "begin")     # (C++14: wrapped in an elidable iterator copy)
         # boolean locals are tracked so that `if (touched)` is correlated with the loop having run
         if k == "decl" and isinstance(ev.get("init"), list) and ev["init"][:1] == ["bool"]:
             return ("sym", ("setvar", ev["var"], ev["init"][1]))
